@@ -242,6 +242,18 @@ def run_case(c, d):
             res[name] = fn(*args)
         except Exception as exc:
             c.exception(name, exc, dict(feats, fn=name))
+    if res and d.get('i', 0) % 3 == 0 and d['kind'] not in ('exact', 'cluster'):
+        kept = {n: [np.array(v, copy=True) for v in r[:2] if isinstance(v, np.ndarray)] for n, r in res.items()}
+        other = gen.noise(c.rng(d, 'other'), N, cplx)
+        for name in list(res):
+            try:
+                getattr(spectrum, name)(other, p)
+            except Exception:
+                continue
+        for name, arrs in kept.items():
+            now = [v for v in res[name][:2] if isinstance(v, np.ndarray)]
+            c.require('%s:earlier-result-unchanged-by-a-later-call' % name,
+                      all(np.array_equal(a, b, equal_nan=True) for a, b in zip(now, arrs)), {'N': N, 'order': p}, dict(feats, fn=name))
     if d['kind'] == 'cluster' or (d['kind'] == 'exact' and len(d['bins']) * (1 if cplx else 2) == p):
         if truth is None:
             bins = d['bins'] if cplx else sorted(d['bins'] + [-b for b in d['bins']])
